@@ -48,7 +48,7 @@ BOUNDS = {
     "target_spelling": "skeleton, source and canonical target fixed per item; spelling = any str of <= L chars (item label) that resolve_target_state resolves from the source to the canonical node; both engines",
     "unresolvable_loud": "skeleton and source fixed per item; target = any str of <= L chars over a 6-letter alphabet (key letters of the skeleton + '.#'; the engines' hasattr() fallback makes CrossHair realise the string, so this part is an enumeration) containing '.' or '#' that none of the four standard attempts resolves and that is not a key of the root's states: must raise StateNotFoundError and leave the configuration unchanged; both engines",
     "target_total": "skeleton CUR8 (custom ids, dotted key, key equal to the machine id); every source node; target = any str of <= L chars",
-    "malformed_loud": "valid config VALID (hierarchy, parallel, history, after, invoke, guards, actions, always, onDone, tags, meta); corruption = subtree index (all JSON subtrees) x 9 replacements of other JSON types; events {GO, NEXT, X, T}",
+    "malformed_loud": "valid config VALID (hierarchy, parallel, history, after, invoke, guards, actions, always, onDone, tags, meta); corruption = subtree index (all JSON subtrees) x 12 replacements of other JSON types (incl. the falsy ones False, 0, 0.0, '', [], {}); a wrong-typed target / guard / cond / src / initial must be rejected at creation; events {GO, NEXT, X, T}",
     "top_level": "x in 8 JSON-typed values",
 }
 ASSUMPTIONS = [
@@ -164,7 +164,16 @@ def canon(ch: Optional[Chooser] = None, vary: Optional[List[str]] = None) -> Dic
     }
     if c(2, "initial") == 0:
         B["initial"] = "only"
-    cfg = {"id": "m", "initial": "A", "states": {"A": A, "B": B, "C": {"on": {"GO": trans("A")}}}}
+    # a compound whose only child is FINAL (completes at once), and one whose only real child has a history sibling:
+    # both may omit 'initial' (exactly one non-history child)
+    D: Dict[str, Any] = {"states": {"fin": {"type": "final"}}, "onDone": {"target": "#m.E"}}
+    both = c(2, "initial")      # D and E share one choice (keeps the combined items small)
+    if both == 0:
+        D["initial"] = "fin"
+    E: Dict[str, Any] = {"states": {"e1": {"on": {"NEXT": {"target": "#m.C"}}}, "hh": {"type": "history"}}}
+    if both == 0:
+        E["initial"] = "e1"
+    cfg = {"id": "m", "initial": "A", "states": {"A": A, "B": B, "C": {"on": {"GO": trans("A"), "NEXT": {"target": "D"}}}, "D": D, "E": E}}
     return cfg
 
 
@@ -197,7 +206,7 @@ def _trace(m: Any) -> Any:
     it.__dict__["_rec"] = rec
     it.start()
     out = [sorted(it.current_state_ids)]
-    for e in ("GO", "NEXT", "GO", "GO"):
+    for e in ("GO", "NEXT", "GO", "GO", "NEXT", "NEXT", "NEXT", "GO"):
         it.send(e)
         out.append((sorted(it.current_state_ids), [(k, s) for k, s, _e in rec]))
     it.stop()
@@ -437,7 +446,22 @@ def subtrees(cfg: Any) -> List[Tuple[Any, ...]]:
     return out
 
 
-REPLACEMENTS: List[Any] = [None, True, 5, "zz", "", [], [5], {}, {"zz": 5}]
+REPLACEMENTS: List[Any] = [None, True, 5, "zz", "", [], [5], {}, {"zz": 5}, False, 0, 0.0]
+
+# keys whose value names something (a state, a predicate, a service): a value of another JSON type has no possible
+# "absent" reading, so accepting it silently means treating it as something else
+_MUST_REJECT = ("target", "guard", "cond", "src", "initial")
+
+
+def _must_reject(path: Tuple[Any, ...], cfg_parent: Any, repl: Any) -> bool:
+    key = path[-1]
+    if key not in _MUST_REJECT or repl is None or isinstance(repl, str):
+        return False
+    if key == "target" and isinstance(cfg_parent, dict) and cfg_parent.get("type") == "history":
+        return False   # a history node's default target is a different construct (not covered by this rule)
+    if key in ("guard", "cond") and isinstance(repl, dict) and isinstance(repl.get("type"), str):
+        return False
+    return True
 
 
 def _valid_machine() -> Any:
@@ -467,11 +491,15 @@ def _corrupt_run(path: Tuple[Any, ...], repl: Any) -> Optional[str]:
     old = cur[path[-1]]
     if type(old) is type(repl) and not isinstance(old, (dict, list)):
         return None  # same JSON type: not a corruption "of the wrong type"
+    must = _must_reject(path, cur, repl)
     cur[path[-1]] = copy.deepcopy(repl)
     where = "/".join(str(k) for k in path)
     stage = "create_machine"
     try:
         m = create_machine(cfg, logic=_logic())
+        if must:
+            return (f"{where} := {repl!r} ({_type_name(old)} -> {_type_name(repl)}): create_machine() accepted a wrong-typed "
+                    f"'{path[-1]}' without any error (silently treated as something else)")
         stage = "start"
         it = SyncInterpreter(m)
         it.start()
